@@ -20,7 +20,8 @@ RULE = ('Hypothesis strategy over allow-lists (absent, empty, exact names, * ? [
         'file) x 1-8 metrics (counter / histogram explicit or auto boundaries / observable gauge; names chosen to match, nearly match '
         'or share a prefix with the patterns) x value sequences, at exporter level and through the real OpenTelemetryClient. '
         'Non-trivial = at least one metric denied and one allowed-and-exported, or the allow-list is empty/absent with >= 1 metric '
-        'holding data. Distinct = distinct case value.')
+        'holding data. Distinct = distinct case value.'
+        ' YAML files also in the shapes null / ~ / commented / missing / single entry as a plain string; histograms with infinite outer boundaries.')
 ASSUMPTIONS = ['OpenTelemetry SDK aggregates as documented; the lineage emitter is a capturing fake',
                'OPENLINEAGE_EXPORT_RAW_DATA is off (raw subject data is not a metric)']
 BUDGET = {'quick': 40, 'thorough': 600}
